@@ -186,6 +186,29 @@ Theorem C10_complete_source_accepted {A} (child : scope) (parent : list (path * 
 Proof. exact (replace_bundle_conn_total child parent). Qed.
 Print Assumptions C10_complete_source_accepted.
 
+(* 6a'. the connection step as repaired (8fdfa58): a source that brings along a member the port's bundle does not have is
+        refused; an accepted connection is the pairing above and the source has exactly the port's members; a source with
+        exactly the port's members is accepted *)
+Theorem C10_extra_member_rejected {A} (child : scope) (parent : list (path * A)) p :
+  In p (map fst parent) -> ~ In p (map fst child) -> replace_bundle_conn_checked child parent = Error EExtra.
+Proof. exact (replace_bundle_conn_checked_extra child parent p). Qed.
+Print Assumptions C10_extra_member_rejected.
+
+Theorem C10_checked_is_pairing {A} (child : scope) (parent : list (path * A)) cs :
+  replace_bundle_conn_checked child parent = Ok cs ->
+  Forall2 (fun e c => fst c = fname (snd e) /\ passoc (fst e) parent = Some (snd c)) child cs /\
+  (forall p, In p (map fst parent) -> In p (map fst child)).
+Proof.
+  intros H. destruct (replace_bundle_conn_checked_ok child parent cs H) as [H1 H2].
+  split; [exact (replace_bundle_conn_spec child parent cs H1)|exact H2].
+Qed.
+Print Assumptions C10_checked_is_pairing.
+
+Theorem C10_exact_source_accepted {A} (child : scope) (parent : list (path * A)) :
+  (forall p, In p (map fst child) <-> In p (map fst parent)) -> exists cs, replace_bundle_conn_checked child parent = Ok cs.
+Proof. exact (replace_bundle_conn_checked_total child parent). Qed.
+Print Assumptions C10_exact_source_accepted.
+
 (* 6b. both sides agree: a port instance tc of a module and an instance tp of the same definition in the parent (other name,
        flips, role, port-ness, namespace): the connection is accepted, passes the executable connection specification, names
        every child port once, and connects the child's signal of member p to the parent's signal of member p *)
